@@ -108,11 +108,92 @@ def strategy(ctx):
     return configs.stop_job()
 
 
+ALIASES = {"ratio": "ratio", "ratio_all": "ratio", "ratio_ns": "ratio_ns",
+           "Z_err": "Z_err", "evidence_error": "Z_err", "log_dZ": "log_dZ",
+           "log_evidence": "log_dZ", "ess": "ess",
+           "fractional_error": "fractional_error"}
+
+
+def boundary_tolerance_cases(cases, results, limit):
+    """Second generation: the same (seeded, deterministic) runs with the
+    tolerance set a relative 1e-7 *below* a value the compared quantity took
+    in the first generation - the run must go on past that iteration (the
+    comparison is "criterion <= tolerance", not "approximately")."""
+    import copy
+
+    out = []
+    n_of = {True: 0, False: 0}
+    for case, reports in zip(cases, results):
+        if case.get("kill_at_finalise"):
+            continue
+        # half of the budget for each sampler
+        if n_of[bool(case.get("ins"))] >= (limit + 1) // 2:
+            continue
+        first = reports[0] if reports else {}
+        if first.get("status") != "completed":
+            continue
+        kw = case["kwargs"]
+        if case.get("ins"):
+            crit = kw.get("stopping_criterion", "ratio")
+            if not isinstance(crit, str):
+                # several criteria: the derived run uses the first alone
+                # (the trajectory of a seeded run does not depend on the rule)
+                crit = crit[0]
+            if crit not in ALIASES:
+                continue
+            vals = ((first.get("data") or {}).get("ins_stop") or {}).get(
+                "values") or []
+            series = [v.get(ALIASES[crit]) for v in vals]
+            key = "tolerance"
+        else:
+            conds = ((first.get("data") or {}).get("ns_stop") or {}).get(
+                "conds") or []
+            series = [c for _, c in conds]
+            key = "stopping"
+        series = [v for v in series if isinstance(v, (int, float))]
+        if len(series) < 3:
+            continue
+        head = series[:-1]
+        k = min(range(len(head)), key=lambda i: head[i])
+        v = float(head[k])
+        t = v - abs(v) * 1e-7
+        if not t < v:
+            continue
+        c = copy.deepcopy({k_: v_ for k_, v_ in case.items()
+                           if k_ != "extra"})
+        c["kwargs"][key] = t
+        if case.get("ins"):
+            c["kwargs"]["stopping_criterion"] = crit
+            c["kwargs"].pop("check_criteria", None)
+            c["kwargs"].pop("min_iteration", None)
+        c["labels"] = [l_ for l_ in c.get("labels", [])
+                       if not l_.startswith("stopping:")] + [
+            "boundary-tolerance:just-below-a-value-of-the-criterion"]
+        n_of[bool(case.get("ins"))] += 1
+        out.append(c)
+    return out
+
+
 def run(ctx):
     n = 24 if ctx.quick else 300
     cases = configs.collect(strategy(ctx), ctx.seed, n)
     cases += runcheck.known_cases("C15")
-    return runcheck.execute_cases(ctx, "c15", cases, make_history, judge)
+    keep = {}
+    out = runcheck.execute_cases(ctx, "c15", cases, make_history,
+                                 lambda c, r, a, s: _judge_keep(
+                                     keep, c, r, a, s))
+    derived = boundary_tolerance_cases(
+        cases[:n], [keep.get(id(c), []) for c in cases[:n]],
+        6 if ctx.quick else 60)
+    if derived:
+        out.merge(runcheck.execute_cases(ctx, "c15b", derived, make_history,
+                                         judge))
+    return out
+
+
+def _judge_keep(keep, case, reports, add, stats):
+    keep[id(case)] = reports
+    return judge(case, reports, add, stats)
 
 
 def health(ctx, stats):
